@@ -193,6 +193,46 @@ Proof.
   intros k v Hin Nk Hk. rewrite (Hkey _ Hk). now apply Hf.
 Qed.
 
+(** ** ... and on every copy in the graph a coarse resolve() returns *)
+From CGV Require Import Resolve.Bonding Resolve.GraphOps Resolve.MapProofs Resolve.CopyProofs Resolve.Pipeline Resolve.PipelineFull Compose.CutModel.
+From CGV Require Resolve.SortGraphProofs.
+From CGV Require Import Dialect.CopyAnnot Dialect.ReturnedAnnot Dialect.ReturnedCoarse.
+Theorem coarse_chain_partial_returned fo F l dc T :
+  FragText.wf (ctoks l) dc = true -> excluded (ctoks l) dc = false ->
+  Lin.lins_ok fo (clins l) = true ->
+  Forall (fun xo => ~ In ";"%char (fst (fst xo))) l ->
+  read_coarse_fragment fo F (FragText.render (decorate (ctoks l) dc)) = Ok T ->
+  forall C, wf_cut C -> forall fd, templates_ok C fd -> wf_dict fd -> fd_get F fd = Some T ->
+  forall B, is_base C B -> forall prev car fo_,
+  meta_of prev = B -> resolve_step_full true false fd prev car = Ok fo_ ->
+  exists m, sort_mapping (fo_m3 fo_) = Ok m /\
+    forall j x o name kws xw, nth_error l j = Some (x, o) -> cn_text x = DialectDefs.render [name] kws ->
+      clean name = true -> name <> [] ->
+      Forall (fun kv => clean_entry kv = true) kws -> NoDup (keys kws) ->
+      (forall k, In k (keys kws) -> ~ In k outside_names) ->
+      w_value fo kws = Some xw ->
+      forall p xs y, nth_error (c_parts C) p = Some (F, xs) -> nth_error xs j = Some y ->
+        node_get (fo_mol fo_) (map_get m (phi C y)) (S "charge") = Some (VFlt (S "0.0")) /\
+        node_get (fo_mol fo_) (map_get m (phi C y)) (S "weight") = Some xw /\
+        forall k v, In (k, v) kws -> k <> S "w" -> ~ In k coarse_written -> carried_key k ->
+          node_get (fo_mol fo_) (map_get m (phi C y)) k = Some (VStr v).
+Proof.
+  intros W X Lok Hs Read C WC fd HT Hwfd Hname B HB prev car fo_ HM Step.
+  destruct (annotation_reaches_returned_graph_coarse C WC fd HT Hwfd B HB prev car fo_ HM Step) as (m & Em & _ & Hk).
+  exists m. split; [exact Em|].
+  intros j x o name kws xw Hj Etx Cn Nn Fk ND Out Hw p xs y Ep Ey.
+  destruct (coarse_chain_partial fo F l dc T W X Lok Hs Read j x o name kws xw Hj Etx Cn Nn Fk ND Out Hw) as (Hc & Hwt & Hf).
+  destruct (HT F xs (nth_error_In _ _ Ep)) as (T' & ET & IT). rewrite Hname in ET. injection ET as <-.
+  destruct (it_attrs _ _ _ _ IT _ _ Ey) as (a0 & Na & _). unfold node_attrs in Na.
+  destruct (gfind (Z.of_nat j) T) as [n|] eqn:Gn; [|discriminate].
+  assert (Hret : forall key, carried_key key -> node_get (fo_mol fo_) (map_get m (phi C y)) key = node_get T (Z.of_nat j) key).
+  { intros key Ck. rewrite (Hk p F xs T j y n key Ep Hname Ey Gn Ck). unfold node_get. now rewrite Gn. }
+  assert (Cc : carried_key (S "charge")) by (repeat split; intros H; apply str_eqb_eq in H; vm_compute in H; discriminate H).
+  assert (Cw : carried_key (S "weight")) by (repeat split; intros H; apply str_eqb_eq in H; vm_compute in H; discriminate H).
+  split; [rewrite (Hret _ Cc); exact Hc|]. split; [rewrite (Hret _ Cw); exact Hwt|].
+  intros k v Hin Nk Hcw Ck. rewrite (Hret _ Ck). now apply Hf.
+Qed.
+
 (** non-vacuity: {#F=[$][#X;w=2;k=v]=[#Y][$]} as a chain: the hypotheses hold, the fragment is read, template node 0 carries
     charge 0.0, weight 2.0 and k = v *)
 Definition exch : list (cnode * option Grammar.sym) := [((S "X", Some (S "w=2;k=v")), Some Grammar.SDouble); ((S "Y", None), None)].
